@@ -217,6 +217,23 @@ func c05GenSeq(r *verifh.Rng) []verifh.Section {
 		}
 		secs = append(secs, verifh.Section{Cfg: fmt.Sprintf("kind=%s mode=seq ns=%s", kind, c5.MultiNs(ns)), Ops: c5.MultiOps(r, lists)})
 	}
+	// several Pools alive at once (equal and different limits) on the one virtual clock: every pool is checked
+	// against its own limit; `t+` advances the time of all of them
+	for i := 0; i < verifh.Scale(8, 120); i++ {
+		k := r.Range(2, 3)
+		maxage := r.Pick(0, 10, 100)
+		var ns []int
+		var lists [][]string
+		for j := 0; j < k; j++ {
+			n := r.Pick(1, 2, 3, r.Range(1, 5))
+			if j > 0 && r.Chance(1, 2) {
+				n = ns[0]
+			}
+			ns = append(ns, n)
+			lists = append(lists, c05PoolOps(r, n, maxage, r.Range(6, 24), false))
+		}
+		secs = append(secs, verifh.Section{Cfg: fmt.Sprintf("kind=pool mode=seq ns=%s maxage=%d breach=0", c5.MultiNs(ns), maxage), Ops: c5.MultiOps(r, lists)})
+	}
 	// thorough tier: exhaustive small scopes (every op sequence of the given length)
 	if verifh.Thorough() {
 		for _, n := range []int{1, 2} {
